@@ -55,6 +55,52 @@ Definition delta_dump_mode (serializer_co_varnames : list string) : dump_mode :=
 Definition delta_dumps_mode : dumps_mode := DumpsSerializerOfDiff.
 Definition delta_to_dict_mode : to_dict_mode := ToDictCopyOfDiff.
 
+(** * json_convertor_default *)
+Definition JSON_CONVERTOR_TABLE : table := [
+  ("decimal.Decimal", JcFunc "_serialize_decimal");
+  ("SetOrdered", JcFunc "list");
+  ("orderly_set.StableSetEq", JcFunc "list");
+  ("set", JcFunc "list");
+  ("type", JcLambda "x.__name__");
+  ("bytes", JcLambda "x.decode('utf-8')");
+  ("datetime.datetime", JcLambda "x.isoformat()");
+  ("uuid.UUID", JcLambda "str(x)");
+  ("np_float32", JcFunc "float");
+  ("np_float64", JcFunc "float");
+  ("np_int32", JcFunc "int");
+  ("np_int64", JcFunc "int");
+  ("np_ndarray", JcLambda "x.tolist()");
+  ("tuple", JcFunc "_serialize_tuple");
+  ("Mapping", JcFunc "dict");
+  ("NotPresent", JcFunc "str")
+].
+(* the mapping the closure closes over *)
+Definition convertor_mapping (default_mapping : table) : table :=
+  match default_mapping with [] => JSON_CONVERTOR_TABLE | _ => table_update JSON_CONVERTOR_TABLE default_mapping end.
+(* _convertor(obj): the first entry whose class obj is an instance of; else the list_reverseiterator fallback; else TypeError *)
+Definition convertor (mapping : table) (c : pycl) : conv_result :=
+  match table_first (pc_isinstance c) mapping with
+  | Some j => ConvApply j
+  | None => match c with PcListReverseIterator => ConvListOfCopy | _ => ConvTypeError end
+  end.
+(* what Codec.to_json assumes of json_convertor_default(): sets and SetOrdered become lists, a class its __name__, bytes
+   their UTF-8 text, a frozenset is refused *)
+Definition default_convertor (c : pycl) : conv_result :=
+  match c with
+  | PcSet | PcSetOrdered => ConvApply (JcFunc "list")
+  | PcType => ConvApply (JcLambda "x.__name__")
+  | PcBytes => ConvApply (JcLambda "x.decode('utf-8')")
+  | PcListReverseIterator => ConvListOfCopy
+  | PcFrozenset | PcOther => ConvTypeError
+  end.
+
+(* tables as sets of pairs *)
+Definition jconv_eqb (a b : jconv) : bool :=
+  match a, b with JcFunc x, JcFunc y | JcLambda x, JcLambda y => String.eqb x y | _, _ => false end.
+Definition entry_eqb (a b : string * jconv) : bool := String.eqb (fst a) (fst b) && jconv_eqb (snd a) (snd b).
+Definition same_entries_b (a b : table) : bool :=
+  forallb (fun x => existsb (entry_eqb x) b) a && forallb (fun x => existsb (entry_eqb x) a) b.
+
 (** * reading a load result as a payload *)
 Definition payload_of (r : res result) : option pv :=
   match result_of r with
